@@ -7,10 +7,41 @@ def _row(inp, row):
     return P.row_c03(row)
 
 
+def _cached_history(reactions, t_first):
+    """rows of a default-threshold run whose result cache was filled by a run under another threshold"""
+    import shutil
+    import tempfile
+    d = tempfile.mkdtemp(prefix="c03cache_")
+    try:
+        P.rebalance(reactions, confidence_threshold=t_first, cache=True, cache_dir=d)
+        return P.rebalance(reactions, cache=True, cache_dir=d)
+    finally:
+        shutil.rmtree(d, ignore_errors=True)
+
+
 def replay(d):
+    if d["input"].get("kind") == "cached-history":
+        rows = _cached_history(d["input"]["reactions"], d["input"]["t_first"])
+        return any(P.row_c03(r) for r in rows)
     return PC.replay_pipeline(d, _row)
 
 
 def check(run):
     PC.deductive(run)
     PC.bounded_rows(run, "declined-rows-untouched", _row)
+    # the default-threshold claim also holds when the result cache is on and was filled by earlier runs under other thresholds
+    sub = [r for r in P.CRAFTED if "[U]" not in r][:24]
+    fails, cases = [], 0
+    for t_first in (0.5, 0.99):
+        try:
+            rows = _cached_history(sub, t_first)
+        except Exception as e:
+            fails.append(({"kind": "cached-history", "reactions": sub, "t_first": t_first}, "cached run raised %r" % (e,)))
+            continue
+        for row in rows:
+            cases += 1
+            bad = P.row_c03(row)
+            if bad:
+                fails.append(({"kind": "cached-history", "reactions": sub, "t_first": t_first}, "default-threshold run over a cache filled at threshold %r: %s" % (t_first, bad)))
+    run.bounded("default-threshold-run-over-a-shared-cache", "%d crafted reactions, cache filled under thresholds 0.5 and 0.99, then the default run" % len(sub),
+                cases, 2, fails[:4], False)
